@@ -1043,7 +1043,24 @@ func main() {
 			}
 			fmt.Fprintf(&f, "\n  (%s, [%s])", leanStr(ff.id), strings.Join(ws, ", "))
 		}
-		f.WriteString("]\n\n")
+		f.WriteString("]\n")
+		// the receiver types that have such writes (sorted, unique)
+		rt := map[string]bool{}
+		for _, ff := range facts {
+			if len(ff.recvw) == 0 {
+				continue
+			}
+			parts := strings.Split(ff.id, ".")
+			if len(parts) == 3 {
+				rt[parts[1]] = true
+			}
+		}
+		var rts []string
+		for k := range rt {
+			rts = append(rts, leanStr(k))
+		}
+		sort.Strings(rts)
+		fmt.Fprintf(&f, "/-- the receiver types whose methods assign through the receiver -/\ndef %sReceiverWriteTypes : List String := [%s]\n\n", pk.name, strings.Join(rts, ", "))
 	}
 	f.WriteString("end GoWebdav.Generated\n")
 	writeIfChanged(filepath.Join(outdir, "Facts.lean"), f.String())
